@@ -301,13 +301,19 @@ def correlate_section(tree, path):
     if ok:
         gen, draw = m.args[0].generators[0], m.args[0].elt
         ok = isinstance(gen.iter, ast.Name) and gen.iter.id == ga[0] and not gen.ifs and \
-            isinstance(draw, ast.Call) and _dotted(draw.func) == "np.random.normal"
-    if ok:
+            isinstance(draw, ast.Call) and _dotted(draw.func) in (
+                "np.random.normal", "np.random.standard_normal", "np.random.randn")
+    if ok and _dotted(draw.func) == "np.random.normal":
         kw = {k.arg: k.value for k in draw.keywords}
         pos = list(draw.args) + [None] * 3
         loc, scale, size = (pos[0] or kw.get("loc"), pos[1] or kw.get("scale"), pos[2] or kw.get("size"))
         ok = loc is not None and scale is not None and _is_zero_one(loc, scale) and \
             isinstance(size, ast.Name) and size.id == ga[1]
+    elif ok:     # standard_normal(n) / randn(n): the same N(0, 1) draws
+        size = draw.args[0] if len(draw.args) == 1 else (
+            draw.keywords[0].value if len(draw.keywords) == 1 and draw.keywords[0].arg == "size"
+            and not draw.args else None)
+        ok = isinstance(size, ast.Name) and size.id == ga[1]
     if not ok:
         raise Unsupported("{}: the offsets are not one np.random.normal(0, 1, sample_size) array per "
                           "source handed to correlate_samples".format(where(g, path)))
